@@ -317,19 +317,29 @@ Proof.
   destruct (N.eqb c c_qm); reflexivity.
 Qed.
 
+Lemma positions_auth_inv b p : positions_of b = Some p -> scheme_end p < authority_end p ->
+  exists k rest0, scheme_len b = Some k /\ scheme_end p = S k
+    /\ skipn (S k) b = c_slash :: c_slash :: rest0
+    /\ authority_end p = S k + 2 + find_or_len is_delim rest0
+    /\ path_end p = authority_end p + find_or_len is_qh (skipn (authority_end p) b).
+Proof.
+  unfold positions_of. destruct (scheme_len b) as [k|] eqn:Ek; [|discriminate].
+  destruct (strip_prefix [c_slash; c_slash] (skipn (S k) b)) as [rest0|] eqn:Es.
+  - intros [= <-] _. apply strip_prefix_some in Es. exists k, rest0. cbn [scheme_end authority_end path_end].
+    repeat split; auto.
+  - intros [= <-]. cbn [scheme_end authority_end]. lia.
+Qed.
+
 Lemma parse_base b p : positions_of b = Some p -> scheme_end p < authority_end p ->
   exists sch au,
     parse_ref b = mkparts (Some sch) (Some au) (ox_path b p)
                     (fst (tail_of (skipn (path_end p) b))) (snd (tail_of (skipn (path_end p) b)))
     /\ (sch ++ [c_colon]) ++ [c_slash; c_slash] ++ au = firstn (authority_end p) b.
 Proof.
-  intros Hp Hlt. pose proof (positions_colon _ _ Hp) as Hcol. revert Hp Hlt Hcol.
-  unfold positions_of. destruct (scheme_len b) as [k|] eqn:Ek; [|discriminate].
-  destruct (strip_prefix [c_slash; c_slash] (skipn (S k) b)) as [rest0|] eqn:Es.
-  2:{ intros [= <-]. cbn [scheme_end authority_end]. lia. }
-  intros [= <-] _. cbn [scheme_end authority_end path_end]. replace (S k - 1) with k by lia. intros Hcol.
-  set (ka := find_or_len is_delim rest0).
-  apply strip_prefix_some in Es.
+  intros Hp Hlt. pose proof (positions_colon _ _ Hp) as Hcol.
+  destruct (positions_auth_inv _ _ Hp Hlt) as (k & rest0 & Ek & Ese & Es & Eae & Epe).
+  rewrite Ese in Hcol. replace (S k - 1) with k in Hcol by lia.
+  set (ka := find_or_len is_delim rest0) in *.
   assert (Hk : k < length b) by (apply nth_error_Some; congruence).
   assert (Hb : b = firstn k b ++ c_colon :: c_slash :: c_slash :: rest0).
   { rewrite <- (firstn_skipn k b) at 1. f_equal.
@@ -338,20 +348,20 @@ Proof.
     assert (E2 : skipn (S k) b = t).
     { replace (S k) with (k + 1) by lia. rewrite skipn_add, E. reflexivity. }
     rewrite <- E2. exact Es. }
-  assert (Hs2 : skipn (S k + 2 + ka) b = skipn ka rest0).
-  { replace (S k + 2 + ka) with (S k + (2 + ka)) by lia. rewrite skipn_add, Es. reflexivity. }
+  assert (Hs2 : skipn (authority_end p) b = skipn ka rest0).
+  { rewrite Eae. replace (S k + 2 + ka) with (S k + (2 + ka)) by lia. rewrite skipn_add, Es. reflexivity. }
   exists (firstn k b), (firstn ka rest0). split.
-  - unfold parse_ref. rewrite Ek. rewrite Es. cbn [strip_prefix]. rewrite !N.eqb_refl. cbv zeta. fold ka.
-    unfold ox_path, slice. cbn [authority_end path_end].
-    rewrite Hs2. replace (S k + 2 + ka + find_or_len is_qh (skipn ka rest0) - (S k + 2 + ka))
-      with (find_or_len is_qh (skipn ka rest0)) by lia.
-    replace (S k + 2 + ka + find_or_len is_qh (skipn ka rest0))
-      with ((S k + 2 + ka) + find_or_len is_qh (skipn ka rest0)) by lia.
-    rewrite skipn_add, Hs2. unfold tail_of.
+  - assert (Hpath : ox_path b p = firstn (find_or_len is_qh (skipn ka rest0)) (skipn ka rest0)).
+    { unfold ox_path, slice. rewrite Hs2. f_equal. rewrite Epe, Hs2. lia. }
+    assert (Hs3 : skipn (path_end p) b = skipn (find_or_len is_qh (skipn ka rest0)) (skipn ka rest0)).
+    { rewrite Epe, skipn_add, Hs2. reflexivity. }
+    rewrite Hpath, Hs3.
+    unfold parse_ref. rewrite Ek, Es. cbn [strip_prefix]. rewrite !N.eqb_refl. cbv zeta. fold ka.
+    unfold tail_of.
     destruct (skipn (find_or_len is_qh (skipn ka rest0)) (skipn ka rest0)) as [|c rest]; [reflexivity|].
     destruct (N.eqb c c_qm); reflexivity.
   - rewrite Hb at 2. assert (L : length (firstn k b) = k) by (rewrite firstn_length; lia).
-    replace (S k + 2 + ka) with (length (firstn k b) + (3 + ka)) by lia.
+    rewrite Eae. replace (S k + 2 + ka) with (length (firstn k b) + (3 + ka)) by lia.
     rewrite firstn_app_2. cbn [Nat.add firstn]. rewrite <- app_assoc. reflexivity.
 Qed.
 
@@ -373,3 +383,198 @@ Proof.
   replace (path_end p) with (authority_end p + (path_end p - authority_end p)) at 1 by lia.
   rewrite firstn_add. reflexivity.
 Qed.
+
+(* ================= oxiri = RFC 3986 5.2.2 on the class ================= *)
+Lemma recompose_path sch au pre res q f rest :
+  (sch ++ [c_colon]) ++ [c_slash; c_slash] ++ au = pre -> qf_text q f = rest ->
+  recompose (mkparts (Some sch) (Some au) res q f) = pre ++ res ++ rest.
+Proof. intros <- <-. rewrite recompose_eq. rewrite !app_assoc. reflexivity. Qed.
+
+Lemma rds_ok_run inp res : rds_ok inp [] res -> remove_dot_segments inp = res.
+Proof. intros H. unfold remove_dot_segments. apply H. lia. Qed.
+
+Theorem oxiri_agrees_with_rfc b p r :
+  positions_of b = Some p -> scheme_end p < authority_end p -> has_dot_seg (ox_path b p) = false ->
+  scheme_len r = None -> hd_is (N.eqb c_colon) r = false -> starts_with [c_slash; c_slash] r = false ->
+  resolve b r = Some (resolve_rfc b r).
+Proof.
+  intros Hpos Hlt Hdot Hsch Hcol Hss.
+  pose proof (positions_ok _ _ Hpos) as Hok.
+  destruct (parse_base b p Hpos Hlt) as (sch & au & HB & Hpre).
+  unfold resolve_rfc. rewrite HB, (parse_rel r Hsch Hss). cbn [p_scheme p_auth p_path p_query p_frag].
+  unfold resolve. rewrite Hpos, Hcol, Hsch.
+  assert (Hha : (scheme_end p <? authority_end p) = true) by (apply Nat.ltb_lt; exact Hlt). rewrite Hha.
+  destruct (suffix_parts r) as (Hr & Hnq & Hrest).
+  set (path := firstn (find_or_len is_qh r) r) in *. set (rest := skipn (find_or_len is_qh r) r) in *.
+  pose proof (tail_text rest Hrest) as Htail.
+  destruct r as [|c r'].
+  { (* empty reference *)
+    subst path rest. cbn [firstn skipn find_or_len find_if length tail_of fst snd].
+    f_equal. symmetry. rewrite (base_query_text _ _ Hok), (firstn_path _ _ Hok), <- app_assoc.
+    apply recompose_path; [exact Hpre|reflexivity]. }
+  destruct (N.eqb_spec c c_slash) as [->|Hns].
+  { (* absolute-path reference *)
+    assert (Hh : hd_is is_slash r' = false).
+    { destruct r' as [|y t]; [reflexivity|]. cbn [starts_with hd_is] in *. rewrite N.eqb_refl in Hss.
+      cbn [andb] in Hss. rewrite andb_true_r in Hss. unfold is_slash. rewrite N.eqb_sym. exact Hss. }
+    rewrite Hh.
+    assert (Ep : path = c_slash :: firstn (find_or_len is_qh r') r'
+                 /\ rest = skipn (find_or_len is_qh r') r').
+    { subst path rest. rewrite find_or_len_cons. change (is_qh c_slash) with false. cbv iota. split; reflexivity. }
+    destruct Ep as [Ep Er]. destruct (suffix_parts r') as (Hr' & Hnq' & Hrest').
+    rewrite <- Er in Hr', Hrest'.
+    destruct (agree_path _ rest [] Hrest' Hnq') as (res & R1 & R2).
+    rewrite Ep. cbn [hd_is]. rewrite N.eqb_refl.
+    rewrite (rds_ok_run _ _ R1). rewrite Hr' at 1. cbn [rev] in R2. rewrite R2. cbn [option_map]. f_equal.
+    symmetry. apply recompose_path; [exact Hpre|exact Htail]. }
+  destruct (N.eqb_spec c c_qm) as [->|Hnq1].
+  { (* query reference *)
+    subst path rest. rewrite find_or_len_cons in *. change (is_qh c_qm) with true in *. cbv iota in *.
+    cbn [firstn skipn] in *. f_equal.
+    assert (Eq : exists q, fst (tail_of (c_qm :: r')) = Some q).
+    { unfold tail_of. rewrite N.eqb_refl. cbv zeta. cbn [fst]. eauto. }
+    destruct Eq as [q Eq]. rewrite Eq in *. symmetry.
+    rewrite (firstn_path _ _ Hok), <- app_assoc. apply recompose_path; [exact Hpre|exact Htail]. }
+  destruct (N.eqb_spec c c_hash) as [->|Hnh].
+  { (* fragment reference *)
+    subst path rest. rewrite find_or_len_cons in *. change (is_qh c_hash) with true in *. cbv iota in *.
+    cbn [firstn skipn] in *. f_equal.
+    assert (Eq : tail_of (c_hash :: r') = (None, Some r')) by reflexivity.
+    rewrite Eq in *. cbn [fst snd] in *. symmetry.
+    rewrite (base_query_text _ _ Hok), (firstn_path _ _ Hok), <- !app_assoc.
+    apply recompose_path; [exact Hpre|]. unfold qf_text. rewrite app_nil_r. reflexivity. }
+  (* relative-path reference *)
+  assert (Hcq : is_qh c = false).
+  { unfold is_qh. apply N.eqb_neq in Hnq1, Hnh. rewrite Hnq1, Hnh. reflexivity. }
+  assert (Ep : exists X, path = c :: X).
+  { subst path. rewrite find_or_len_cons, Hcq. cbn [firstn]. eauto. }
+  destruct Ep as [X Ep]. rewrite Ep. cbv iota.
+  apply N.eqb_neq in Hns. rewrite Hns. rewrite <- Ep.
+  assert (Hagree : exists res, remove_dot_segments (rfc_merge (mkparts (Some sch) (Some au) (ox_path b p)
+                      (fst (tail_of (skipn (path_end p) b))) (snd (tail_of (skipn (path_end p) b)))) path) = res
+                   /\ pp_rm true (rls true (rev (ox_path b p))) (path ++ rest) = Some (res ++ rest)).
+  { unfold rfc_merge. cbn [p_auth p_path].
+    destruct (ox_path b p) as [|x P'] eqn:EP.
+    - destruct (agree_path path rest [] Hrest Hnq) as (res & R1 & R2). exists res. split.
+      + apply rds_ok_run. exact R1.
+      + exact R2.
+    - rewrite <- EP in *. set (P := ox_path b p) in *.
+      assert (Hroot : hd_is is_slash P = true).
+      { destruct (po_auth_root _ _ Hok Hlt) as [E|E]; [fold P in E; rewrite EP in E; discriminate|exact E]. }
+      destruct (rfind c_slash P) as [i|] eqn:F.
+      2:{ apply rfind_none in F. rewrite EP in F, Hroot. unfold no_slash in F. cbn [forallb hd_is] in *.
+          rewrite Hroot in F. discriminate. }
+      destruct (rfind_decomp _ _ F) as (a & t & E & La & Ht & F1 & F2).
+      assert (Hda : has_dot_seg a = false).
+      { rewrite E, has_dot_seg_app in Hdot. apply orb_false_iff in Hdot. tauto. }
+      assert (Hra : a = [] \/ hd_is is_slash a = true).
+      { destruct a as [|y a']; [left; reflexivity|right]. rewrite E in Hroot. exact Hroot. }
+      destruct (rooted_slashcat a Hra Hda) as (pieces & HF & Ea).
+      destruct (agree_path path rest a Hrest Hnq) as (res & R1 & R2). exists res. split.
+      + rewrite EP. rewrite <- EP. rewrite F2, <- app_assoc. cbn [app].
+        apply rds_ok_run. rewrite Ea. apply rds_plain_prefix; [exact HF|right; eexists; reflexivity|].
+        cbn [app]. rewrite <- Ea. exact R1.
+      + destruct (rls_some true P i F) as [E1 _]. rewrite E1, F1. exact R2. }
+  destruct Hagree as (res & R1 & R2). rewrite R1. rewrite Hr at 1. rewrite R2. cbn [option_map]. f_equal.
+  symmetry. apply recompose_path; [exact Hpre|exact Htail].
+Qed.
+
+(* ================= the references produced by relativize carry neither scheme nor authority ================= *)
+Lemma relativize_ref_kind b n i r : relativize b n i = Ret (Some r) ->
+  scheme_len r = None /\ hd_is (N.eqb c_colon) r = false /\ starts_with [c_slash; c_slash] r = false.
+Proof.
+  unfold relativize. destruct (new b n) as [z|] eqn:Hnew; [|discriminate].
+  unfold relativize_z. set (l := lcp (z_base z) i).
+  destruct (if z_query_end z <=? l then rest_is (N.eqb c_hash) i (z_query_end z) else Some false)
+    as [[|]|] eqn:EA; [| |discriminate].
+  { destruct (Nat.leb_spec (z_query_end z) l) as [HA|HA]; [|discriminate].
+    unfold emit_from. destruct (slice_from i (z_query_end z)) as [f|] eqn:ES; [|discriminate].
+    intros [= <-]. cbn [app]. unfold rest_is in EA.
+    destruct (Nat.eqb_spec (length i) (z_query_end z)) as [E|E].
+    - apply slice_from_some in ES as [-> _]. rewrite <- E, skipn_all. repeat split; reflexivity.
+    - rewrite ES in EA. cbn [option_map] in EA. injection EA as EA.
+      destruct f as [|c t]; [discriminate|]. cbn [hd_is] in EA. apply N.eqb_eq in EA. subst c. repeat split; reflexivity. }
+  destruct (if z_path_end z <=? l then option_map (hd_is (N.eqb c_qm)) (slice_from i (z_path_end z)) else Some false)
+    as [[|]|] eqn:EB; [| |discriminate].
+  { destruct (Nat.leb_spec (z_path_end z) l) as [HB|HB]; [|discriminate].
+    unfold emit_from. destruct (slice_from i (z_path_end z)) as [f|] eqn:ES; [|discriminate].
+    intros [= <-]. cbn [app]. cbn [option_map] in EB. injection EB as EB.
+    destruct f as [|c t]; [discriminate|]. cbn [hd_is] in EB. apply N.eqb_eq in EB. subst c. repeat split; reflexivity. }
+  destruct (z_pseudoroot z <=? l); [|discriminate].
+  destruct (find_cut l (z_slashes z) 0 (z_pseudoroot z)) as [nb cut].
+  destruct (slice_from i cut) as [suffix|]; [|discriminate].
+  destruct (suffix_parts suffix) as (Hsuf & Hnq & Hrest).
+  set (path := firstn (find_or_len is_qh suffix) suffix) in *.
+  set (rest := skipn (find_or_len is_qh suffix) suffix) in *.
+  destruct (has_dot_seg path); [discriminate|].
+  destruct (hd_is is_slash path) eqn:Hsl.
+  { destruct (Nat.eqb cut (z_path_begin z)); [|discriminate].
+    destruct (starts_with [c_slash; c_slash] path) eqn:Hss; [discriminate|].
+    cbn [andb negb]. intros [= <-].
+    destruct path as [|x path'] eqn:Epath; [discriminate|].
+    cbn [hd_is] in Hsl. unfold is_slash in Hsl. apply N.eqb_eq in Hsl. subst x.
+    rewrite Hsuf. cbn [app]. repeat split; try reflexivity.
+    destruct path' as [|y t].
+    - cbn [app starts_with]. rewrite N.eqb_refl. cbn [andb].
+      destruct Hrest as [->|Hr]; [reflexivity|]. destruct rest as [|y t]; [reflexivity|].
+      cbn [hd_is] in Hr. rewrite N.eqb_sym, (is_qh_not_slash _ Hr). reflexivity.
+    - exact Hss. }
+  destruct (z_has_authority z && Nat.eqb (z_path_begin z) (z_path_end z)); [discriminate|].
+  destruct nb as [|nb'].
+  - cbn [Nat.ltb Nat.leb].
+    destruct (match path with [] => true | _ :: _ => false end || has_colon (first_seg path)) eqn:Hds.
+    + intros [= <-]. repeat split; reflexivity.
+    + intros [= <-]. apply orb_false_iff in Hds as [Hne Hcol].
+      destruct path as [|x path'] eqn:Epath; [discriminate|].
+      cbn [hd_is] in Hsl. rewrite first_seg_cons in Hcol by exact Hsl.
+      unfold has_colon in Hcol. cbn [existsb] in Hcol. apply orb_false_iff in Hcol as [Hx Hcol].
+      split; [|split].
+      * destruct (scheme_len suffix) as [k|] eqn:E; [|reflexivity].
+        apply scheme_len_colon in E. fold path in E. rewrite Epath in E.
+        rewrite first_seg_cons in E by exact Hsl. unfold has_colon in E. cbn [existsb] in E.
+        rewrite Hx, Hcol in E. discriminate.
+      * rewrite Hsuf. cbn [app hd_is]. exact Hx.
+      * rewrite Hsuf. cbn [app starts_with]. unfold is_slash in Hsl. rewrite N.eqb_sym, Hsl. reflexivity.
+  - cbn [Nat.ltb Nat.leb]. intros [= <-]. repeat split; reflexivity.
+Qed.
+
+(* relativize is a right inverse of the RFC 3986 resolver as well, for bases with an authority and
+   a path free of dot segments *)
+Theorem relativize_sound_rfc_partial b n i r p :
+  relativize b n i = Ret (Some r) ->
+  positions_of b = Some p -> scheme_end p < authority_end p -> has_dot_seg (ox_path b p) = false ->
+  resolve_rfc b r = i.
+Proof.
+  intros H Hp Hlt Hd. destruct (relativize_sound _ _ _ _ H) as [Hs _].
+  destruct (relativize_ref_kind _ _ _ _ H) as (K1 & K2 & K3).
+  rewrite (oxiri_agrees_with_rfc b p r Hp Hlt Hd K1 K2 K3) in Hs. congruence.
+Qed.
+
+(* the statement without the restriction on the base: FALSE, because oxiri (hence relativize, which is
+   its inverse) never normalises the dot segments of the base and handles "too many .." on rootless
+   bases differently from RFC 3986 *)
+Definition relativize_sound_rfc : Prop :=
+  forall b n i r, relativize b n i = Ret (Some r) -> resolve_rfc b r = i.
+
+(* base <http://a/b/../c/d>, IRI <http://a/b/../c/x>: "x"; RFC gives <http://a/c/x> *)
+Example relativize_sound_rfc_refuted_dot_base : ~ relativize_sound_rfc.
+Proof.
+  intros H.
+  specialize (H [104; 116; 116; 112; 58; 47; 47; 97; 47; 98; 47; 46; 46; 47; 99; 47; 100]%N 0
+                [104; 116; 116; 112; 58; 47; 47; 97; 47; 98; 47; 46; 46; 47; 99; 47; 120]%N [120]%N eq_refl).
+  vm_compute in H. discriminate H.
+Qed.
+(* base <s:a/b>, IRI <s:x>, one "../": "../x"; RFC gives <s:/x>, oxiri <s:x> *)
+Example relativize_sound_rfc_refuted_rootless : ~ relativize_sound_rfc.
+Proof.
+  intros H.
+  specialize (H [115; 58; 97; 47; 98]%N 1 [115; 58; 120]%N [46; 46; 47; 120]%N eq_refl).
+  vm_compute in H. discriminate H.
+Qed.
+(* where the oxiri model and RFC 3986 differ: a reference with a scheme keeps its dot segments *)
+Example oxiri_differs_scheme_ref :
+  resolve [104; 116; 116; 112; 58; 47; 47; 97; 47; 98]%N [115; 58; 120; 47; 46; 46; 47; 121]%N
+    = Some [115; 58; 120; 47; 46; 46; 47; 121]%N
+  /\ resolve_rfc [104; 116; 116; 112; 58; 47; 47; 97; 47; 98]%N [115; 58; 120; 47; 46; 46; 47; 121]%N
+    = [115; 58; 47; 121]%N.
+Proof. split; vm_compute; reflexivity. Qed.
